@@ -769,3 +769,26 @@ Proof.
   specialize (Hex I). rewrite app_nil_r in Hde. unfold deserialize_problem. rewrite Hde.
   destruct items as [|i0 [|i1 items]]; simpl in Hex; try discriminate. simpl in Hf. inversion Hf; subst. reflexivity.
 Qed.
+
+(* ------------------------------------------------------------------ the hypotheses are satisfiable *)
+Example canonical_1x2 : canonical_rooms 1 2 [[(0, 0); (0, 1)]%nat].
+Proof.
+  split; [split; [|split]|split].
+  - repeat constructor. discriminate.
+  - vm_compute. apply Permutation_refl.
+  - constructor; [|constructor]. intros a b Ha Hb.
+    assert (Hadj1 : adjacent (0, 0)%nat (0, 1)%nat) by (left; simpl; auto).
+    assert (Hadj2 : adjacent (0, 1)%nat (0, 0)%nat) by (left; simpl; auto).
+    destruct Ha as [Ha|[Ha|[]]]; destruct Hb as [Hb|[Hb|[]]]; subst.
+    + apply conn_refl. left; auto.
+    + eapply conn_step; [apply conn_refl; left; auto| right; left; auto | exact Hadj1].
+    + eapply conn_step; [apply conn_refl; right; left; auto| left; auto | exact Hadj2].
+    + apply conn_refl. right; left; auto.
+  - repeat constructor.
+  - repeat constructor.
+Qed.
+
+Example rooms_1x2_roundtrip :
+  serialize_problem (Rooms false false) (rooms_to_pv [[(0, 0); (0, 1)]%nat]) 1 2 = Ok ["0"%char]
+  /\ deserialize_problem (Rooms false false) ["0"%char] 1 2 = Ok (Some (rooms_to_pv [[(0, 0); (0, 1)]%nat])).
+Proof. split; vm_compute; reflexivity. Qed.
